@@ -41,7 +41,7 @@ func (Precision) Type() Type {
 }
 
 func (c Precision) String() string {
-	return PrecisionConstraintType.String() + ": " + strconv.Itoa(int(c.value))
+	return PrecisionConstraintType.String() + ": " + strconv.FormatUint(uint64(c.value), 10)
 }
 
 func (c Precision) Validate(value bytes.Bytes) {
